@@ -134,8 +134,9 @@ class CParser:
             self._scope_stack.pop()
 
     def _share_enclosing_scope(self) -> None:
-        """The braces of an enum body are not a scope: enumerators belong to
-        the scope the enum specifier appears in. The lexer has pushed a scope
+        """The braces of an enum or struct/union body are not a scope:
+        enumerators (also those of an enum declared inside a struct body) belong
+        to the scope the specifier appears in. The lexer has pushed a scope
         for the '{' just consumed; make it an alias of the enclosing one, so
         that what is declared until the matching '}' stays declared after it.
         """
@@ -1139,6 +1140,7 @@ class CParser:
             name_tok = self._advance()
             if self._peek_type() == "LBRACE":
                 self._advance()
+                self._share_enclosing_scope()
                 if self._accept("RBRACE"):
                     return klass(
                         name=name_tok.value, decls=[], coord=self._tok_coord(name_tok)
@@ -1155,6 +1157,7 @@ class CParser:
 
         if self._peek_type() == "LBRACE":
             brace_tok = self._advance()
+            self._share_enclosing_scope()
             if self._accept("RBRACE"):
                 return klass(name=None, decls=[], coord=self._tok_coord(brace_tok))
             decls = self._parse_struct_declaration_list()
